@@ -12,7 +12,7 @@ SWAP = ["manual", "automatic"]
 HALT = ["pause", "optional-pause", "end-without-reset", "end-with-reset", "pallet-exchange",
         "wait-for-bed", "wait-for-hotend", "wait-for-chamber", "wait-for-motion"]
 PROBE = ["towards", "towards-no-error", "away", "away-no-error"]
-STEP = {0: 1.0, 1: 0.5, 2: 0.25, 3: 0.125, 4: 0.0625, 5: 0.03125}
+STEP = {0: 1.0, 1: 0.5, 2: 0.25, 3: 0.125, 4: 0.0625, 5: 0.03125, 7: 0.0078125, 8: 0.00390625}
 
 
 class Gen:
@@ -252,7 +252,16 @@ class Gen:
         if x < 0.27:
             return {"call": "set_distance_mode", "mode": r.choice(["absolute", "relative"])}
         if x < 0.32:
-            return {"call": "rapid", "ax": [self.num(0, 15), self.num(0, 15), None]}
+            # travel, sometimes with a retraction (added after seed C20d): a rapid carrying an E word is not extruded by the
+            # hook but is remembered; the filament position may end up below zero
+            d = {"call": "rapid", "ax": [self.num(0, 15), self.num(0, 15), None]}
+            if r.random() < 0.5:
+                d["E"] = r.choice([-1.5, -0.5, -4.0, 2.0])
+                if r.random() < 0.4:
+                    d["ax"] = [None, None, None]
+            return d
+        if x < 0.34:
+            return {"call": "set_axis", "ax": [None, None, None], "E": r.choice([-2.0, -0.25])}
         if x < 0.45:
             return self.tracer()
         if x < 0.48:
@@ -277,10 +286,24 @@ class Gen:
             return {"call": "remove_probe_hook"}
         return self.motion()
 
+    def fine(self):
+        """Motion at 7-8 decimal places (added after seed C01d: a rounding to 6 decimals inside Point): small coordinates and
+        no F / S / E words, so that every number stays below 2^31 trace units."""
+        r = self.r
+        c = r.choice(["move", "move", "rapid", "move_absolute", "set_axis", "set_distance_mode", "rapid_absolute"])
+        if c == "set_distance_mode":
+            return {"call": c, "mode": r.choice(["absolute", "relative"])}
+        ax = [None, None, None]
+        for i in r.sample(range(3), r.choice([1, 2, 3])):
+            ax[i] = r.uniform(-0.5, 0.5) if c in ("move", "rapid") and r.random() < 0.5 else r.uniform(0, 4)
+        return {"call": c, "ax": ax}
+
     def next(self):
         r = self.r
         p = self.profile
         x = r.random()
+        if p == "fine":
+            return self.fine()
         if p == "motion":
             if not self.exact and x < 0.12:
                 return self.tracer()
@@ -290,6 +313,9 @@ class Gen:
         if p == "bounds":
             if x < 0.12:
                 return self.set_bounds()
+            if x < 0.15 and self.dp != 0:        # (added after seed C03d) a hook that returns a new dict with F and S tripled
+                self.scaled = not getattr(self, "scaled", False)
+                return {"call": "add_scale_hook" if self.scaled else "remove_scale_hook"}
             return self.motion() if x < 0.6 else (self.interlock() if x < 0.8 else self.modal())
         if p == "hooks":
             if not self.exact and x < 0.15:      # interpolated vertices are not on the exact grid
